@@ -501,6 +501,56 @@ fn libs_cmd(t: &mut Toks) -> String {
     format!("{} ;;; {} ;;; {}", out.join(" ;; "), names.join(" "), notes.join(" "))
 }
 
+/// flibs <n> (<file-stem-hex> <content-hex>)* <program-hex>
+/// writes the files <stem>.sld into a fresh directory, makes it the program directory of a new interpreter (no library
+/// registered by hand: every user library is found through the file system) and evaluates the program form by form.
+fn flibs_cmd(t: &mut Toks) -> String {
+    use std::sync::atomic::{AtomicUsize, Ordering};
+    static COUNTER: AtomicUsize = AtomicUsize::new(0);
+    let n: usize = t.int();
+    let dir = std::env::temp_dir().join(format!(
+        "ruschm-verif-flibs-{}-{}",
+        std::process::id(),
+        COUNTER.fetch_add(1, Ordering::SeqCst)
+    ));
+    let _ = std::fs::remove_dir_all(&dir);
+    std::fs::create_dir_all(&dir).unwrap();
+    for _ in 0..n {
+        let stem = unhex(t.next());
+        let content = unhex(t.next());
+        let path = dir.join(format!("{}.sld", stem));
+        if let Some(parent) = path.parent() {
+            std::fs::create_dir_all(parent).unwrap();
+        }
+        std::fs::write(&path, content).unwrap();
+    }
+    let mut it = Interpreter::<f32>::new_with_stdlib();
+    it.program_directory = Some(dir.clone());
+    let text = unhex(t.next());
+    let mut out: Vec<String> = Vec::new();
+    let lexer = Lexer::from_char_stream(text.chars());
+    let parser = Parser::from_lexer(lexer);
+    for statement in parser {
+        match statement {
+            Err(e) => {
+                out.push(err_kind(&e));
+                break;
+            }
+            Ok(st) => {
+                let r = catch_unwind(AssertUnwindSafe(|| it.eval_root_ast(&st)));
+                match r {
+                    Err(_) => out.push("PANIC".to_string()),
+                    Ok(Ok(Some(v))) => out.push(format!("OK {}", show_value(&v))),
+                    Ok(Ok(None)) => out.push("OK -".to_string()),
+                    Ok(Err(e)) => out.push(err_kind(&e)),
+                }
+            }
+        }
+    }
+    let _ = std::fs::remove_dir_all(&dir);
+    out.join(" ;; ")
+}
+
 fn run_line(line: &str) -> String {
     let mut t = Toks {
         t: line.split_whitespace().collect(),
@@ -597,6 +647,7 @@ fn run_line(line: &str) -> String {
             }
         }
         "libs" => libs_cmd(&mut t),
+        "flibs" => flibs_cmd(&mut t),
         "scope" => scope_cmd(&mut t),
         "c18sweep" => c18sweep(t.int()),
         "refdepth" => {
